@@ -46,6 +46,9 @@ def cases(tier, seed):
         base += designs.expr_cases(300, seed, n=8, maxw=5) + designs.seq_cases(widths=(1, 4, 8)) + designs.misc_cases()
         base += [{'fam': 'MISC', 'kind': 'rtl_assert', 'w': 2}, {'fam': 'MISC', 'kind': 'rtl_assert', 'w': 3}]
     base += [{'fam': 'C11X', 'kind': 'same_name_roms'}, {'fam': 'C11X', 'kind': 'generator_twice'}]
+    # designs in which constant propagation has something to fold into NEW constants (which belong to the result, not the source)
+    cop = designs.constop_cases()
+    base += [{'fam': 'MISC', 'kind': 'const_folds'}] + (cop[::max(1, len(cop) // 14)] if tier == 'quick' else cop)
     # declared but unconnected Inputs are part of the interface
     base += [dict(c, spare=1 + i % 2) for i, c in enumerate(designs.op_cases([3], ops='w+x', mul_max=0))]
     for i, c in enumerate(base):
